@@ -320,6 +320,34 @@ class GoTest(Part):
         ctx.run_part(self.name, [b, '-test.run', self.runpat, '-test.timeout', '0', '-test.count', '1'], extra)
 
 
+class TracePart(Part):
+    """A check of the tracefs engine (Python: strace + FS model + crash/fault enumeration)."""
+
+    def __init__(self, name, func, thorough_only=False):
+        super().__init__(name, thorough_only)
+        self.func = func
+
+    def warm(self, ctx):
+        ctx.build_bin('drv', 'harness/drv')
+        ctx.build_bin('oracle', 'harness/oracle')
+
+    def run(self, ctx, replay):
+        drv = ctx.build_bin('drv', 'harness/drv')
+        oracle = ctx.build_bin('oracle', 'harness/oracle')
+        tdir = os.path.join(VERIF, 'tracefs')
+        if tdir not in sys.path:
+            sys.path.insert(0, tdir)
+        import checks
+        env = checks.Env(ctx, ctx.pid, self.name, drv, oracle)
+        t = time.time()
+        try:
+            ev = getattr(checks, self.func)(env, ctx.tier == 'thorough')
+        except checks.TraceError as e:
+            raise ToolError('tracefs part %s: %s' % (self.name, e))
+        ctx.add_part(self.name, ev)
+        ctx.log('ran %s in %.1fs: %s' % (self.name, time.time() - t, ' '.join('%s=%s' % kv for kv in ev['coverage'].items() if isinstance(kv[1], int) and not isinstance(kv[1], bool))))
+
+
 class RwTest(Part):
     """In-package sequential harness (go test) over a partially rewritten package
     (import swaps only, e.g. the virtual clock); no scheduler involved."""
